@@ -102,6 +102,46 @@ def _bitscan_range(iv, fn, e, args, vals, env):
     return (-1, 63)
 
 
+# Buffers of which the reference tree keeps a pointer (array decay not immediately subscripted, &buf[i], array::data()):
+# every one of them is covered by a named rule below (list windows B5/B7/B8, pin list B10, PV copy B4, stack frames B3,
+# counter-move slots, reader buffer C19.R2, constructor memset/fill). A pointer into any OTHER fixed-extent buffer is an
+# access path no rule bounds: analysis-broken, never a silent pass.
+POINTER_BASES = {'data_', 'PINS', 'MOVE_LIST', 'TEMP_MOVE_LIST', 'entry', '_board', '_piece_count', '_by_piece_kind_bb',
+                 '_by_color_bb', 'movelist', 'moves', '_pv_list', 'historyScore', '_counter_move', 'searchmoves',
+                 '_stack_info', '_counter_move_table', 'previous_moves'}
+
+
+def _pointer_escapes(ctx, p, funcs):
+    n_sites = 0
+    for f in funcs:
+        if f.body is None:
+            continue
+        for n in f.all_nodes():
+            inner = None
+            if n['k'] == 'ImplicitCastExpr' and n.get('ck') == 'ArrayToPointerDecay':
+                par = f.parent(n)
+                if par is not None and par['k'] == 'ArraySubscriptExpr' and kids(par)[0] is n:
+                    continue
+                inner = kids(n)[0]
+                if any(x['k'] in ('StringLiteral', 'PredefinedExpr') for x in walk(inner)):
+                    continue
+            elif n['k'] == 'UnaryOperator' and n.get('op') == '&':
+                x = kids(n)[0]
+                if x['k'] == 'ArraySubscriptExpr' or (x['k'] == 'CXXOperatorCallExpr' and x.get('op') == '[]'):
+                    inner = x
+            elif n['k'] == 'CXXMemberCallExpr' and short((n.get('callee') or {}).get('n', '')) == 'data' and \
+                    'std::array' in n['callee']['n']:
+                inner = n
+            if inner is None:
+                continue
+            n_sites += 1
+            names = [short(x['ref']['n']) for x in walk(inner) if x.get('ref', {}).get('k') in ('Field', 'Global', 'StaticMember', 'Local', 'Parm')]
+            if not any(nm in POINTER_BASES for nm in names):
+                raise AnalysisBroken('C10: a pointer into %s is formed at %s; no rule bounds the accesses made through it'
+                                     % (canon(f, inner, inline=False), f.loc(n)))
+    ctx.floor('C10.PTR.escapes', n_sites, 30, 'pointers formed into fixed-extent buffers')
+
+
 def check(ctx):
     p = ctx.prog()
     maxd = p.val('engine::MAX_DEPTH')
@@ -141,6 +181,7 @@ def check(ctx):
     ctx.assume('C09.R1/R2: _current_depth <= _search_depth <= MAX_DEPTH')
 
     funcs = [f for f in p.repo_funcs('engine/')]
+    _pointer_escapes(ctx, p, funcs)
     called = set()
     for f in funcs:
         for n, fid, nm in f.calls():
